@@ -451,7 +451,7 @@ PROPS['C08'] = {
 }
 
 PROPS['C18'] = {
-    'requires': [], 'corr': corr_pixel(300, 5000), 'search': 'C18',
+    'requires': [], 'corr': corr_multi(corr_pixel(300, 5000), corr_samplers(6, 80)), 'search': 'C18',
     'trusted_base': ['coq/model/Pixel.v is a hand-written voxel-level model (clip-to-dtype wrapper, MIN / MAX tables, gauss_noise, '
                      'brightness / contrast with max_brightness, invert with two\'s complement wrap, to_float, from_float, the '
                      'Sharpen kernel); tied to the code by harness/corr_pixel.py on one-voxel arrays of every dtype at values where '
